@@ -335,7 +335,7 @@ func run(c *mc.Ctx, r *mc.Result) {
 		runPool(c, r, "prefixes", c02.PoolFor(true), 2, 3, 40000)
 		runPool(c, r, "siblings", c02.SiblingPool(), 4, 4, 8000)
 	} else {
-		runPool(c, r, "prefixes", c02.PoolFor(false), 3, 4, 600000)
+		runPool(c, r, "prefixes", c02.PoolFor(true), 3, 4, 400000)
 		runPool(c, r, "siblings", c02.SiblingPool(), 6, 5, 60000)
 	}
 }
